@@ -421,6 +421,18 @@ func conclude(ts *treeSpec, rq *reqSpec, a *ragg) []finding {
 	if e > 0 {
 		expName = ts.Apps[e].Full + "#" + strconv.Itoa(e)
 	}
+	// Two mounted apps with the same full mount path share one slot in fiber's path-keyed app
+	// list (one shadows the other): a separate root cause, named in the class.
+	if bestClass != "" {
+		seen := map[string]bool{}
+		for i := 1; i < len(ts.Apps); i++ {
+			if seen[ts.Apps[i].Full] {
+				bestClass = "duplicate-mount-path:" + bestClass
+				break
+			}
+			seen[ts.Apps[i].Full] = true
+		}
+	}
 	extra := map[string]any{"expected_handler": expName, "observed_handlers": obs, "wrong_handler_classes": classes,
 		"flip_on_same_built_app": a.flipWithin, "raise_position": a.posClass, "error_kind": a.errKind}
 	if len(ids) > 1 {
@@ -440,7 +452,7 @@ func conclude(ts *treeSpec, rq *reqSpec, a *ragg) []finding {
 		clause = "wrong-scope"
 	case bestRank == 70:
 		clause = "shadowed-by-handlerless-app"
-		bestClass = strings.TrimPrefix(bestClass, "shadowed-by-")
+		bestClass = strings.Replace(bestClass, "shadowed-by-", "", 1)
 	}
 	out = append(out, finding{"C08|" + clause + "|" + bestClass,
 		fmt.Sprintf("handler %v ran on every evaluation, rule selects %s", obs, expName), mk(extra)})
